@@ -8,7 +8,7 @@ SRC = "harness/c04_reloc.cpp"
 def run(res, ctx):
     tier = ctx["tier"]
     if tier == "quick":
-        runner.run_harness(res, SRC, "asan", tier, deadline=200, timeout=600, shards=16)
+        runner.run_harness(res, SRC, "asan", tier, deadline=480, timeout=1200, shards=16)
     else:
         runner.run_harness(res, SRC, "asan", tier, deadline=1500, timeout=2400, shards=16)
 
